@@ -36,7 +36,16 @@ func checkC16(w *World, r *Report) {
 			r.HoldsTrivial("C16.G-SITE", name, w.pos(t.Pos()), "go target analysed; its blocking operations are classified above")
 		}
 	}
-	r.Floor("C16.G-SITE", 13, "go targets of the module")
+	r.Floor("C16.G-SITE", 8, "go targets of the module")
+	// a bar that is not announced to the width matrices leaves distributors (and itself) blocked forever
+	fi := w.analyseFlush()
+	ruleSuccessorSwap(w, r, "C16", fi)
+	ruleAddPushesOrParks(w, r, "C16")
+	ruleSyncArm(w, r, "C16")
+	ruleDistributor(w, r, "C16")
+	ruleFormatExchange(w, r, "C16")
+	ruleTerminalCancel(w, r, "C16", fi)
+	ruleTriggerCancels(w, r, "C16")
 	checkCloseOnce(w, r, "C16.R5")
 	checkHeapSendDiscipline(w, r, "C16.R4")
 }
